@@ -101,7 +101,7 @@ func main() {
 
 	curPlmn := []byte{0x02, 0xf8, 0x39} // ngapTestpacket's initial TestPlmn
 	forceBits, forceOnes := uint64(0), false
-	setupCount := 0
+	setupCount, forceName := 0, 0
 	setup := func() {
 		curPlmn = plmn()
 		bits := uint64(22 + rg.Intn(11))
@@ -118,6 +118,9 @@ func main() {
 			gid[len(gid)-1] &= 0xff << uint(8-bits%8)
 		}
 		nameLen := []int{1, 2, 7, 75, 150}[setupCount%5]
+		if forceName > 0 {
+			nameLen = forceName
+		}
 		setupCount++
 		name := make([]byte, nameLen)
 		for i := range name {
@@ -353,6 +356,22 @@ func main() {
 		setup()
 	}
 	forceBits, forceOnes = 0, false
+	// RAN node name lengths: the whole range 1..150 in the thorough tier (every length moves the lengths of the IE value and of the
+	// message across their own boundaries), in the quick tier the ends, the lengths around which the enclosing lengths pass 127/128,
+	// and names beyond the root of the extensible size constraint (which may be refused, but not mangled)
+	var nls []int
+	if *tier == "thorough" {
+		for n := 1; n <= 150; n++ {
+			nls = append(nls, n)
+		}
+	} else {
+		nls = []int{3, 4, 80, 81, 82, 83, 84, 124, 125, 126, 127, 128, 129, 149}
+	}
+	for _, n := range append(nls, 151, 200, 256) {
+		forceName = n
+		setup()
+	}
+	forceName = 0
 	// the PLMN follows every further NG Setup of the same process (a second and a third announcement, also in the quick tier)
 	for k := 0; k < 2; k++ {
 		setup()
